@@ -1,5 +1,5 @@
 (* allow-axioms:  *)
-From RRE Require Import Base.Sx Model.KB Proofs.KBProofs.
+From RRE Require Import Base.Sx Model.KB Proofs.KBProofs Proofs.KBRefineProofs.
 From Coq Require Import Sorting.Sorted.
 Open Scope Z_scope.
 From RRE Require Import Properties.C15.
@@ -11,3 +11,7 @@ Check (C15_version_grows : forall k o,
 Check (C15_version_monotone : forall k o, version k <= version (fst (step k o))).
 Check (C15_listing_descending : forall ops, StronglySorted desc (rules (exec init ops))).
 Check (C15_lock_order : lock_order_ok = true).
+Check (C15_sequential_refinement : forall ops, run_from init ops = srun_from sinit ops).
+Check (C15_spec_listing : forall s, NoDup (map s_seq (srules s)) ->
+  Permutation.Permutation (slisting s) (map s_rule (srules s))
+  /\ StronglySorted (fun a b => before a b = true) (fold_left (fun acc x => sinsert x acc) (srules s) [])).
